@@ -122,6 +122,9 @@ func LayerConvertFunc(opts ...estargz.Option) converter.ConvertFunc {
 			} else {
 				newDesc.MediaType += "+gzip"
 			}
+		} else if mt, ok := zstdToGzipMediaType(newDesc.MediaType); ok {
+			// the source was zstd-compressed, the eStargz blob is gzip
+			newDesc.MediaType = mt
 		}
 		newDesc.Digest = w.Digest()
 		newDesc.Size = n
@@ -136,4 +139,17 @@ func LayerConvertFunc(opts ...estargz.Option) converter.ConvertFunc {
 		newDesc.Annotations[estargz.StoreUncompressedSizeAnnotation] = fmt.Sprintf("%d", uncompressedSize)
 		return &newDesc, nil
 	}
+}
+
+// zstdToGzipMediaType returns the gzip counterpart of a zstd layer media type.
+func zstdToGzipMediaType(mt string) (string, bool) {
+	switch mt {
+	case ocispec.MediaTypeImageLayerZstd:
+		return ocispec.MediaTypeImageLayerGzip, true
+	case ocispec.MediaTypeImageLayerNonDistributableZstd: //nolint:staticcheck // deprecated
+		return ocispec.MediaTypeImageLayerNonDistributableGzip, true //nolint:staticcheck // deprecated
+	case images.MediaTypeDockerSchema2LayerZstd:
+		return images.MediaTypeDockerSchema2LayerGzip, true
+	}
+	return "", false
 }
